@@ -95,10 +95,10 @@ func (r *verifChunkedReader) Read(p []byte) (int, error) {
 // verifStreamingEqualsOneShot: the streaming digests of a body delivered in arbitrary read sizes to a consumer that
 // reads with an arbitrary buffer size equal the one-shot digests of the same bytes (MD5 as ETag, CRC32, CRC32C,
 // CRC64NVME, SHA-1, SHA-256), and the reported size is the number of bytes.
-func verifStreamingEqualsOneShot(seed []byte, repeat uint16, reads []uint32, consumerBuf uint32) bool {
-	// a deterministic pseudo-random body of up to 3 MiB derived from the generated values
-	data := make([]byte, (int(repeat)*977+len(seed)*131)%(3<<20))
-	state := uint32(2463534242) + uint32(repeat)
+func verifStreamingEqualsOneShot(seed []byte, length uint32, reads []uint32, consumerBuf uint32) bool {
+	// a deterministic pseudo-random body of up to 1.5 MiB derived from the generated values
+	data := make([]byte, int(length%(3<<19)))
+	state := uint32(2463534242) + length
 	for _, b := range seed {
 		state = state*31 + uint32(b)
 	}
